@@ -513,6 +513,7 @@ func (m *Matcher) match(pattern interface{}, fact interface{}, bindings Bindings
 			fxs := make(map[interface{}]bool)
 			fxa := make(map[int]interface{})
 			for i, y := range fa {
+				y = fudge(y)
 				switch y.(type) {
 				case float64, string, bool, nil:
 					fxs[y] = true
@@ -526,6 +527,7 @@ func (m *Matcher) match(pattern interface{}, fact interface{}, bindings Bindings
 
 			// iterate pattern values and match with fact values
 			for _, x := range xs {
+				x = fudge(x)
 				switch x.(type) {
 				case float64, string, bool, nil:
 					_, found := fxs[x]
